@@ -1,15 +1,23 @@
 #!/bin/bash
-# tools/try_patch_all.sh <patch> : all quick checks against a scratch copy of /repo with the patch applied
-# (two waves: in-process checks, then the end-to-end ones).  Prints one line per check that does not pass.
+# tools/try_patch_all.sh <patch (absolute path)> : all quick checks against a scratch copy of /repo with the patch
+# applied (two waves: in-process checks, then the end-to-end ones).  One line per check that does not pass.
+# Works from any copy of /verif; scratch copy = $SEEDREPO (default /tmp/seedrepo).
 set -u
+V=$(cd "$(dirname "$0")/.." && pwd)
+S=${SEEDREPO:-/tmp/seedrepo}
 patch=$1
-rm -rf /tmp/seedrepo && cp -r /repo /tmp/seedrepo && (cd /tmp/seedrepo && git apply "$patch") || { echo "patch does not apply"; exit 2; }
-rm -rf /tmp/verif-evidence-backup && cp -r /verif/evidence /tmp/verif-evidence-backup
-trap '(cd /verif && python3 -c "from vlib.common import build_go, make_overlay; build_go(); from vlib import c14; c14.build_vaccess(); c14.regenerate(make_overlay())" >/dev/null 2>&1); sed -i "s#=> /tmp/seedrepo#=> /repo#" /verif/harness/go.mod; rm -rf /tmp/seedrepo /verif/evidence; mv /tmp/verif-evidence-backup /verif/evidence' EXIT
-cd /verif
-VERIF_REPO=/tmp/seedrepo ./setup.sh >/dev/null 2>&1
-run() { p=$1; out=$(VERIF_REPO=/tmp/seedrepo ./check "$p" --tier quick 2>&1); rc=$?; if [ $rc -ne 0 ]; then echo "ALARM $p rc=$rc: $(echo "$out" | grep -E '^VIOLATION' | head -3 | tr '\n' ' ')"; for f in $(echo "$out" | grep -E '^VIOLATION' | sed 's/.*replay=//; s/ .*//' | head -2); do python3 -c "
+rm -rf "$S" && cp -r /repo "$S" && (cd "$S" && git apply "$patch") || { echo "patch does not apply"; exit 2; }
+rm -rf "$S-evidence-backup" && cp -r "$V/evidence" "$S-evidence-backup"
+restore() {
+  (cd "$V" && python3 -c "from vlib.common import build_go, make_overlay; build_go(); from vlib import c14, regen_re; c14.build_vaccess(); c14.regenerate(make_overlay()); regen_re.build_regex_tables()" >/dev/null 2>&1)
+  sed -i "s#=> $S#=> /repo#" "$V/harness/go.mod"
+  rm -rf "$S" "$V/evidence"; mv "$S-evidence-backup" "$V/evidence"
+}
+trap restore EXIT
+cd "$V"
+VERIF_REPO="$S" ./setup.sh >/dev/null 2>&1
+run() { p=$1; out=$(VERIF_REPO="$S" ./check "$p" --tier quick 2>&1); rc=$?; if [ $rc -ne 0 ]; then echo "ALARM $p rc=$rc: $(echo "$out" | grep -E '^VIOLATION' | head -3 | tr '\n' ' ')"; for f in $(echo "$out" | grep -E '^VIOLATION' | sed 's/.*replay=//; s/ .*//' | head -2); do python3 -c "
 import json,sys; d=json.load(open('$f')); print('    ', d.get('what','')[:300])"; done; fi; }
-for p in C01 C02 C06 C08 C09 C10 C11 C15 C16 C17 C18 C20; do run $p & done; wait
+for p in C01 C02 C06 C08 C09 C10 C11 C14 C15 C16 C17 C18 C20; do run $p & done; wait
 for p in C03 C04 C05 C07 C12 C13 C19; do run $p & done; wait
 echo "done $(basename $patch)"
